@@ -31,11 +31,12 @@ def supOf (s : State) (d : Denom) : Supply := (AMap.get? s.supplies d).getD zero
 
 /-! ### invariants (Prop) -/
 
-/-- shape of stored contracts: the escrow never is a sender; a transfer has one coin and a direction -/
+/-- shape of stored contracts: the escrow never is a sender; a transfer has one coin, a direction,
+and a supply record for its denom; a plain contract has no direction -/
 def WF (s : State) : Prop :=
   ∀ id c, AMap.get? s.htlcs id = some c →
     c.sender ≠ escrow ∧
-    (c.transfer = true → (∃ d n, c.amount = [(d, n)]) ∧ c.direction ≠ .none) ∧
+    (c.transfer = true → ∃ d n, c.amount = [(d, n)] ∧ c.direction ≠ .none ∧ (AMap.get? s.supplies d).isSome) ∧
     (c.transfer = false → c.direction = .none)
 
 /-- the escrow identity -/
